@@ -356,6 +356,138 @@ pub fn threaded<W: Whole>(rep: &mut Rep, k: [u8; 40], seed: u64, msgs: usize, yi
     }
 }
 
+/// Wrath client: server headers decoded through the two-step API with clone / split taking place between the
+/// 4-byte attempt and the fifth byte; every replica (original and clones, combined or split) must finish the header.
+pub fn wrath_two_step(rep: &mut Rep, k: [u8; 40], seed: u64, headers: usize) {
+    use wow_srp::wrath_header::{ClientCrypto, ClientDecrypterHalf, ClientEncrypterHalf, WrathServerAttempt};
+    let mut rng = Rng::new(seed, 0x125);
+    let replay = format!("twostep {} {} {}", hex(&k), seed, headers);
+    let (client, _server) = match guard(|| objs::wrath_pair(k)) {
+        Ok(p) => p,
+        Err(e) => {
+            rep.violation("c12:wrath_client:panic:construct", e, replay);
+            return;
+        }
+    };
+    #[derive(Clone)]
+    enum R {
+        Whole(ClientCrypto),
+        Halves(ClientEncrypterHalf, ClientDecrypterHalf),
+    }
+    let mut model = wrath_model(&WRATH_R, &k);
+    let mut reps: Vec<R> = vec![R::Whole(client)];
+    let mut trace: Vec<String> = Vec::new();
+    for _ in 0..headers {
+        let long = rng.chance(2, 3);
+        let size: u32 = if long { 0x8000 + rng.below(0x7F8000) as u32 } else { rng.below(0x8000) as u32 };
+        let op: u16 = rng.next() as u16;
+        let mut wire = crate::c10::layout(size, op);
+        model.xor(&mut wire);
+        let first = [wire[0], wire[1], wire[2], wire[3]];
+        // step 1 on every replica
+        let mut pending = true;
+        for r in reps.iter_mut() {
+            rep.ev(1);
+            let a = guard(|| match r {
+                R::Whole(w) => w.attempt_decrypt_server_header(first),
+                R::Halves(_, d) => d.attempt_decrypt_server_header(first),
+            });
+            match a {
+                Err(e) => {
+                    rep.violation("c12:wrath_client:panic:attempt", e, replay);
+                    return;
+                }
+                Ok(WrathServerAttempt::Header(h)) => {
+                    pending = false;
+                    if long || (h.size, h.opcode) != (size, op) {
+                        rep.violation(
+                            "c12:wrath_client:two_step_header_wrong:short",
+                            format!("attempt returned ({:#x},{:#x}) for sent ({:#x},{:#x}) after {:?}", h.size, h.opcode, size, op, &trace[trace.len().saturating_sub(8)..]),
+                            replay,
+                        );
+                        return;
+                    }
+                }
+                Ok(WrathServerAttempt::AdditionalByteRequired) => {
+                    if !long {
+                        rep.violation("c12:wrath_client:two_step_header_wrong:short", "fifth byte requested for a short header".into(), replay);
+                        return;
+                    }
+                }
+            }
+        }
+        if !long {
+            trace.push("short".into());
+            continue;
+        }
+        let _ = pending;
+        // between the two steps: clone / split / nothing
+        match rng.below(4) {
+            0 => {
+                let i = rng.below(reps.len() as u64) as usize;
+                let c = reps[i].clone();
+                if reps.len() < 3 {
+                    reps.push(c);
+                } else {
+                    let j = rng.below(3) as usize;
+                    reps[j] = c;
+                }
+                trace.push("attempt,clone".into());
+                rep.count("clones_between_attempt_and_fifth_byte", 1);
+            }
+            1 => {
+                let i = rng.below(reps.len() as u64) as usize;
+                if let R::Whole(w) = reps[i].clone() {
+                    let (e, d) = w.split();
+                    reps[i] = R::Halves(e, d);
+                    rep.count("splits_between_attempt_and_fifth_byte", 1);
+                }
+                trace.push("attempt,split".into());
+            }
+            2 => {
+                // clone of the decrypter half only
+                let i = rng.below(reps.len() as u64) as usize;
+                if let R::Halves(e, d) = &reps[i] {
+                    let d2 = d.clone();
+                    let e2 = e.clone();
+                    reps[i] = R::Halves(e2, d2);
+                    rep.count("half_clones_between_attempt_and_fifth_byte", 1);
+                }
+                trace.push("attempt,halfclone".into());
+            }
+            _ => trace.push("attempt".into()),
+        }
+        for (ri, r) in reps.iter_mut().enumerate() {
+            rep.ev(1);
+            let h = guard(|| match r {
+                R::Whole(w) => w.decrypt_large_server_header(wire[4]),
+                R::Halves(_, d) => d.decrypt_large_server_header(wire[4]),
+            });
+            match h {
+                Err(e) => {
+                    rep.violation("c12:wrath_client:panic:fifth_byte", e, replay);
+                    return;
+                }
+                Ok(h) => {
+                    if (h.size, h.opcode) != (size, op) {
+                        rep.violation(
+                            "c12:wrath_client:two_step_header_wrong:long",
+                            format!(
+                                "replica {} completed the 5-byte header as ({:#x},{:#x}), sent ({:#x},{:#x}); recent steps {:?}",
+                                ri, h.size, h.opcode, size, op, &trace[trace.len().saturating_sub(8)..]
+                            ),
+                            replay,
+                        );
+                        return;
+                    }
+                }
+            }
+        }
+        rep.cell(&[55, trace.last().map(|t| t.len()).unwrap_or(0) as u64]);
+    }
+    rep.count("two_step_histories", 1);
+}
+
 pub fn unsplit_pairs(rep: &mut Rep, rng: &mut Rng) {
     use vanilla_header::HeaderCrypto;
     let k: [u8; 40] = rng.arr();
@@ -447,6 +579,11 @@ yields compared with the models. distinct = op-kind 3-grams per expansion + unsp
                 _ => history::<wrath_header::ServerCrypto>(&mut rep, k, hs, max_ops, max_chunk),
             }
         }
+        for _ in 0..per / 4 + 1 {
+            let k: [u8; 40] = rng.arr();
+            let hs = rng.next();
+            wrath_two_step(&mut rep, k, hs, if max_ops > 100 { 40 } else { 3 });
+        }
         for _ in 0..(ksets + shards - 1) / shards {
             if ksets > 0 {
                 unsplit_pairs(&mut rep, &mut rng);
@@ -515,6 +652,11 @@ pub fn replay(args: &[String]) -> Rep {
                 _ => threaded::<wrath_header::ServerCrypto>(&mut rep, k, s, msgs, true),
             }
         }
+    } else if args.len() >= 4 && args[0] == "twostep" {
+        let kb = unhex(&args[1]);
+        let mut k = [0u8; 40];
+        k.copy_from_slice(&kb[..40]);
+        wrath_two_step(&mut rep, k, args[2].parse().unwrap_or(0), args[3].parse().unwrap_or(40));
     } else if args.len() >= 2 && args[0] == "unsplit" {
         let kb = unhex(&args[1]);
         // re-derive: the sweep is keyed by the RNG; rerun a sweep on this key by seeding with its bytes
